@@ -80,6 +80,18 @@ func main() {
 	} else {
 		specs = buildSpecs(r)
 	}
+	// development aid: C09_ONLY=<history name> runs only that history's cases
+	// (no coverage minimums), C09_DUMP=1 prints every step log to stderr
+	only := os.Getenv("C09_ONLY")
+	if only != "" {
+		var f []*RunSpec
+		for _, s := range specs {
+			if s.H.Name == only {
+				f = append(f, s)
+			}
+		}
+		specs = f
+	}
 
 	workers := runtime.NumCPU() - 2
 	if workers > 14 {
@@ -144,9 +156,20 @@ func main() {
 			}
 		}
 	}
-	r.Count("model_states_visited", 0)
+	if os.Getenv("C09_DUMP") != "" {
+		for _, res := range results {
+			if res == nil {
+				continue
+			}
+			fmt.Fprintf(os.Stderr, "--- run %d %s %s faults=%v\n", res.Index, res.Spec.Kind, res.Spec.H.Name, res.Spec.faults())
+			for _, lg := range res.Logs {
+				b, _ := json.Marshal(lg)
+				fmt.Fprintf(os.Stderr, "    %s\n", b)
+			}
+		}
+	}
 
-	if r.ReplayCase() == nil {
+	if r.ReplayCase() == nil && only == "" {
 		for _, f := range allFaults {
 			r.Require("fault/"+f, int64(r.N(4, 40)))
 		}
